@@ -33,7 +33,8 @@ func B2Byte(arr []bool) byte {
 
 // ReadGroup: the bits of the file's bytes.
 func ReadGroup(filename string) []bool {
-	out := make([]bool, 0, 1000000)
+	n := 1000000
+	out := make([]bool, 0, n)
 	buf, err := ioutil.ReadFile(filename)
 	if err != nil {
 		panic(err)
